@@ -384,6 +384,8 @@ impl Search {
             // However, if we add more extensions, we need to be concerned with overflow in the future.
             depth += 1;
         }
+        #[cfg(rce_verif)]
+        let _node = vh::node_scope();
 
         if depth == 0 {
             return self.quiescence(evaluator, alpha, beta, start);
